@@ -190,6 +190,13 @@ spec fn explog_ok<S>(el: Seq<S>, expanded: Set<Fingerprint>) -> bool {
     &&& forall|a: int, b: int| 0 <= a < b < el.len() ==> fp_of(#[trigger] el[a]) != fp_of(#[trigger] el[b])
     &&& forall|k: Fingerprint| #[trigger] expanded.contains(k) ==> exists|n: int| 0 <= n < el.len() && fp_of(#[trigger] el[n]) == k
 }
+// C11 completeness: an expanded dead end on whose generating path the eventually-property i never held has led to a
+// discovery for that property
+#[verifier::opaque]
+spec fn ev_complete<M: Model>(m: M, d: Disc, st: StMap<M::State>, pth: PthMap<M::State>, expanded: Set<Fingerprint>) -> bool {
+    forall|k: Fingerprint, i: int| expanded.contains(k) && is_dead_end(m, st[k]) && #[trigger] unsat_on(m, i, pth[k])
+        ==> d.contains_key(m.props()[i].name)
+}
 
 // =====================================================================================================
 // Step lemmas: one per kind of state change of check_block
@@ -597,6 +604,58 @@ proof fn ev_witness<M: Model>(m: M, st: StMap<M::State>, pth: PthMap<M::State>, 
     assert(ebit_exact(m, bits, pth[k], i));
 }
 
+// the n-th action of s leads into the boundary: s is not a dead end
+//@props C11
+proof fn not_dead<M: Model>(m: M, s: M::State, n: int)
+    requires 0 <= n < m.acts(s).len(), in_succ_at(m, s, n)
+    ensures !is_dead_end(m, s)
+{
+    let a = m.acts(s)[n];
+    let t = m.nxt(s, a).unwrap();
+    assert(m.acts(s).contains(a));
+    assert(is_succ(m, s, t));
+}
+// the evaluated job k (state s, bits exact for its path) has been expanded and, if it is a dead end, every bit
+// still set has produced a discovery.  That last fact about the code (`bits_recorded`) is the premise of the
+// conclusion, not a precondition: a block that does not record then fails its own clause `eventually-complete`
+//@props C11
+proof fn ev_complete_step<M: Model>(m: M, dh: Disc, d: Disc, g3: Gen, st3: StMap<M::State>, pth3: PthMap<M::State>,
+                                    g: Gen, st: StMap<M::State>, pth: PthMap<M::State>, e3: Set<Fingerprint>, k: Fingerprint, s: M::State, bits: Set<usize>)
+    requires
+        ev_complete(m, dh, st3, pth3, e3), dh.dom().subset_of(d.dom()), extends(g3, st3, pth3, g, st, pth),
+        forall|x: Fingerprint| e3.contains(x) ==> g3.contains_key(x),
+        st[k] == s, local_exact(m, bits, pth[k]), m.props().len() <= usize::MAX,
+    ensures bits_recorded(m, d, s, bits) ==> ev_complete(m, d, st, pth, e3.insert(k))
+{
+    reveal(ev_complete); reveal(extends); reveal(local_exact);
+    if bits_recorded(m, d, s, bits) {
+        assert forall|x: Fingerprint, i: int| e3.insert(k).contains(x) && is_dead_end(m, st[x]) && #[trigger] unsat_on(m, i, pth[x])
+            implies d.contains_key(m.props()[i].name) by {
+            if x == k {
+                assert(ebit_exact(m, bits, pth[k], i));
+                assert(bits.contains(i as usize));
+                assert(d.contains_key(m.props()[i].name));
+            } else {
+                assert(g3.contains_key(x));
+                assert(unsat_on(m, i, pth3[x]));
+                assert(dh.contains_key(m.props()[i].name));
+                assert(dh.dom().contains(m.props()[i].name) ==> d.dom().contains(m.props()[i].name));
+            }
+        }
+    }
+}
+//@props C11
+proof fn ev_complete_mono<M: Model>(m: M, dh: Disc, d: Disc, st: StMap<M::State>, pth: PthMap<M::State>, e: Set<Fingerprint>)
+    requires ev_complete(m, dh, st, pth, e), dh.dom().subset_of(d.dom())
+    ensures ev_complete(m, d, st, pth, e)
+{
+    reveal(ev_complete);
+    assert forall|x: Fingerprint, i: int| e.contains(x) && is_dead_end(m, st[x]) && #[trigger] unsat_on(m, i, pth[x])
+        implies d.contains_key(m.props()[i].name) by {
+        assert(dh.dom().contains(m.props()[i].name) ==> d.dom().contains(m.props()[i].name));
+    }
+}
+
 // `pending.pop_back()` returned a job with key k: k was not finished before and counts as finished from now on
 //@props C01
 proof fn part_pop_step<S>(dom: Set<Fingerprint>, p: Seq<Job<S>>, done: Set<Fingerprint>)
@@ -871,3 +930,34 @@ proof fn eventually_no_false_alarm<M: Model>(m: M, g: Gen, st: StMap<M::State>, 
     gen_inv_key(m, g, st, pth, d[name]);
 }
 
+// C11: on a model whose reachable graph is a forest, after a completed exhaustive BFS run an eventually-property
+// has a counterexample exactly if some maximal in-boundary path from an initial state never satisfies it
+//@props C11
+proof fn exact_on_forest<M: Model>(m: M, g: Gen, st: StMap<M::State>, pth: PthMap<M::State>, gh: Gh<M>, pending: Seq<Job<M::State>>, d: Disc, i: int)
+    requires
+        gen_inv(m, g, st, pth), closed_ok(m, g, st, gh.expanded),
+        partition_ok(g.dom(), pending, gh.expanded + gh.skipped + gh.unexp),
+        pending.len() == 0, gh.skipped == Set::<Fingerprint>::empty(), gh.unexp == Set::<Fingerprint>::empty(),
+        inits_generated(m, g), fp_inj_reach(m), unique_path(m), names_distinct(m),
+        disc_ok(m, g, d, st, pth), ev_complete(m, d, st, pth, gh.expanded),
+        0 <= i < m.props().len(), m.props()[i].expectation is Eventually,
+    ensures
+        d.contains_key(m.props()[i].name) <==> exists|ss: Seq<M::State>| #[trigger] is_path(m, ss) && is_dead_end(m, ss.last()) && unsat_on(m, i, ss),
+{
+    reveal(ev_complete);
+    if d.contains_key(m.props()[i].name) {
+        eventually_no_false_alarm(m, g, st, pth, d, i);
+        let ss = pth[d[m.props()[i].name]];
+        assert(is_path(m, ss) && is_dead_end(m, ss.last()) && unsat_on(m, i, ss));
+    }
+    if exists|ss: Seq<M::State>| #[trigger] is_path(m, ss) && is_dead_end(m, ss.last()) && unsat_on(m, i, ss) {
+        let ss = choose|ss: Seq<M::State>| #[trigger] is_path(m, ss) && is_dead_end(m, ss.last()) && unsat_on(m, i, ss);
+        closure(m, g, st, pth, gh, pending);
+        path_reach(m, ss);
+        let k = fp_of(ss.last());
+        assert(g.contains_key(k) && st[k] == ss.last());
+        gen_inv_key(m, g, st, pth, k);
+        assert(pth[k] == ss);
+        assert(gh.expanded.contains(k));
+    }
+}
